@@ -6,9 +6,9 @@ RETS = [[0], [1], [2], [3], [0], [1], [2]]
 
 
 def spec(setup=(), refresh=(), show=(), closed=(), inputs=(), default=((), None), prompt_none=0, ireq=1, nosep=0,
-         skip=0, pages=0, answer0=0):
+         skip=0, pages=0, answer0=0, custom=None):
     return [list(setup), list(refresh), list(show), list(closed), [[lib.cps(k), list(c), r] for k, c, r in inputs],
-            [list(default[0]), [] if default[1] is None else [default[1]]], prompt_none, ireq, nosep, skip, pages, answer0]
+            [list(default[0]), [] if default[1] is None else [default[1]]], prompt_none, ireq, nosep, skip, pages, answer0] + ([[list(c) for c in custom]] if custom is not None else [])
 
 
 def gen_case(rng, plausible=True, malformed=False):
@@ -62,7 +62,22 @@ def gen_case(rng, plausible=True, malformed=False):
         setup = []
         if rng.random() < 0.12:
             setup = rng.choice([[0], [0, 1], [1, 0]])
-        specs.append(spec(setup=setup, refresh=refresh, show=show, closed=closed, inputs=inputs,
+        custom = None
+        if rng.random() < 0.25:
+            # the screen's own signals (SignalHandler.connect / create_signal / emit): callbacks connected on the first
+            # refresh, signals emitted from input() / closed() / other callbacks
+            def cb_cmds():
+                return [rng.choice([[14, rng.randrange(20, 29)], [6], [7], [4], stack_cmd(), [23, rng.randrange(3), 0],
+                                    [14, rng.randrange(20, 29)]]) for _ in range(rng.randrange(0, 3))]
+            custom = [cb_cmds() for _ in range(rng.randrange(1, 4))]
+            conn = [[22, rng.randrange(3), rng.randrange(len(custom) + 1)] for _ in range(rng.randrange(1, 4))]
+            refresh.append([15, 1, conn, []])
+            for _k, cmds, _r in inputs:
+                if rng.random() < 0.5:
+                    cmds.insert(rng.randrange(len(cmds) + 1), [23, rng.randrange(3), rng.choice([0, 0, 0, -5, 3])])
+            if rng.random() < 0.3:
+                closed.append([23, rng.randrange(3), 0])
+        specs.append(spec(setup=setup, refresh=refresh, show=show, closed=closed, inputs=inputs, custom=custom,
                           default=([], None if rng.random() < 0.8 else rng.choice(RETS)),
                           prompt_none=1 if rng.random() < 0.05 else 0,
                           ireq=0 if rng.random() < 0.06 else 1,
@@ -220,6 +235,20 @@ def gen_focus_case(rng, prop):
         dlg = spec(inputs=[("1", [], [2]), ("2", [[17, 0]], [2]), ("3", [], [0])], ireq=0 if quiet else 1,
                    skip=1 if rng.random() < 0.5 else 0)
         typed = [L(rng.choice(["1", "3"]))] + [L(rng.choice(["1", "2", "3", "x", "c"])) for _ in range(rng.randrange(1, 8))]
+        return [3000, [hub, dlg], typed, [], 0, [[0, [3, 0, 0]], [1]]]
+    if prop in ("C05", "C02", "C03") and rng.random() < 0.15:
+        # a dialog reports its result to its caller through a signal of the application and closes: the caller connected
+        # a callback to the result class before opening the dialog; the signal's source is the DIALOG (registered in the
+        # modal level): "nothing that was queued has been lost"
+        prio = rng.choice([0, 0, -5, 3])
+        hub_cb = [rng.choice([[14, 21], [6], [14, 22]])] + ([[23, 1, 0]] if rng.random() < 0.3 else [])
+        hub = spec(refresh=[[15, 1, [[22, 0, 0], [22, 1, 1]], []]],
+                   inputs=[("1", [[1, 1, 0]], [0]), ("2", [], [2]), ("3", [[23, 0, prio], [1, 1, 0]], [1])],
+                   custom=[hub_cb, [[14, 23]]])
+        dlg = spec(inputs=[("1", [[23, 0, prio]], [2]), ("2", [[4], [23, 0, prio]], [0]), ("3", [[23, 0, prio], [23, 1, 0]], [0])],
+                   closed=[[23, 0, 0]] if rng.random() < 0.3 else [],
+                   refresh=[[15, 1, [[22, 0, 0]], []]] if rng.random() < 0.3 else [], custom=[[[14, 24]]])
+        typed = [L(rng.choice(["1", "1", "2", "3", "c", "r"])) for _ in range(rng.randrange(3, 12))]
         return [3000, [hub, dlg], typed, [], 0, [[0, [3, 0, 0]], [1]]]
     if prop == "C05":
         # modal pushed from input / refresh / show_all / another modal, depth up to 4
